@@ -127,6 +127,8 @@ def canon_value(v):
         return ["cmp", v.op.name, str(v.number.number)]
     if isinstance(v, SigmaFieldReference):
         return ["fieldref", v.field, bool(v.starts_with), bool(v.ends_with)]
+    if isinstance(v, SigmaQueryExpression):
+        return ["qx", v.id]
     return ["other", type(v).__name__]
 
 
@@ -217,10 +219,22 @@ class Ser:
         return ["unknown", type(c).__name__]
 
 
+def _inject_query_expressions(d):
+    """values spelled QX:<id> stand for the result of a query-expression placeholder transformation"""
+    if isinstance(d, SigmaDetection):
+        for x in d.detection_items:
+            _inject_query_expressions(x)
+    else:
+        d.value = [SigmaQueryExpression("«{field} qx " + str(v)[3:] + "»", str(v)[3:])
+                   if isinstance(v, SigmaString) and str(v).startswith("QX:") else v for v in d.value]
+
+
 def run_struct(case):
     B = make_backend(case["k"])
     backend = B()
     rule = SigmaRule.from_dict(case["rule"])
+    for d in rule.detection.detections.values():
+        _inject_query_expressions(d)
     dets = {name: ser_detection(d) for name, d in rule.detection.detections.items()}
     out = {"dets": dets, "conds": []}
     for cond in rule.detection.parsed_condition:
